@@ -115,6 +115,8 @@ void exec_mt_plan(const Plan &plan, Ctx &ctx, Outcome &out);
 Plan materialise_fs_plan(const Plan &plan);
 void attach_history(Plan &p, Rng &rng);   // a generated earlier plan of the same process (sibling project)
 Project random_macro_project(Rng &rng, bool random_set);   // a macro family or a random macro set with uses, as raw text   // faults applied: the delivered files become the (raw) project, no fault ops left
+void seed_heap(uint64_t seed);   // plain build: the allocator's placement decisions follow this seed from now on (no-op in the sanitizer builds)
+bool heap_is_seeded();
 uint64_t allocated_bytes();   // sanitizer's live heap bytes (0 when unavailable)
 
 }  // namespace sim
